@@ -293,6 +293,8 @@ class Machine(object):
         if name == "sub":
             return x - val(op[2]), None
         if name == "mul":
+            if int(x).bit_length() + abs(ival(op[2])).bit_length() > 30000:
+                return "skip", None
             return x * val(op[2]), None
         if name in ("floordiv", "mod", "imod"):
             d = val(op[2])
@@ -341,6 +343,8 @@ class Machine(object):
             return ("sqrt_mod", int(r) * int(r) % p, 0 <= int(r) < p, type(r).__name__ != "int"), pre
         if name in ("iadd", "isub", "imul"):
             t = val(op[2])
+            if name == "imul" and int(x).bit_length() + abs(int(t)).bit_length() > 30000:
+                return "skip", None
             if name == "iadd":
                 x += t
             elif name == "isub":
@@ -354,6 +358,10 @@ class Machine(object):
             if int(x) < 0 or ival(op[2]) < 0:
                 return "skip", None
             return (x & t) if name == "and" else (x | t), None
+        if name in ("lshift", "ilshift") and int(x).bit_length() + op[2][1] > 30000:
+            return "skip", None
+        if name == "multiply_accumulate" and abs(ival(op[2])).bit_length() + abs(ival(op[3])).bit_length() > 30000:
+            return "skip", None
         if name in ("rshift", "lshift"):
             n = op[2][1]
             return (x >> n) if name == "rshift" else (x << n), None
